@@ -75,6 +75,7 @@ vh::Outcome run_def(const vh::Case& c, Prop prop) {
                             else { s.fv = d.modify_async([&body, &s](Tracked& t) { body(s, t); }); s.has_fv = true; }
                         } catch (const vrt::InjectedFault&) {
                             if (!faults) vrt::fail("escaped-fault", "fault without a plan");
+                            if (kind != 0) vrt::fail("async-propagated", "modify_async let the function's exception escape instead of capturing it in the future");
                             s.threw_out = true;       // direct-path modify_detach propagates
                         }
                         s.ret = vrt::now_step();
@@ -107,6 +108,7 @@ vh::Outcome run_def(const vh::Case& c, Prop prop) {
             });
         }
         vrt::join_all();
+        vrt::disable_faults();
         // quiescence: one lock_shared with no handle held applies everything that was accepted
         {
             auto h = d.lock_shared();
